@@ -267,6 +267,11 @@ theorem Dec.le_total (a b : Dec) : Dec.le a b = true ∨ Dec.le b a = true := by
   simp only
   omega
 
+theorem Dec.le_of_lt {a b : Dec} (h : Dec.lt a b = true) : Dec.le a b = true := by
+  rcases Dec.le_total a b with h1 | h1
+  · exact h1
+  · rw [Dec.lt_eq_not_le, h1] at h; simp at h
+
 theorem Dec.strict_off_boundary {a b : Dec} (h : (Dec.le b a && Dec.le a b) = false) : Dec.le a b = Dec.lt a b := by
   rw [Dec.lt_eq_not_le a b]
   rcases Dec.le_total a b with h1 | h1
